@@ -281,6 +281,10 @@ func runC06(c *fw.Ctx) {
 		storms.Add(1)
 		go func(i int) { defer storms.Done(); c03AckStorm(c, 600+i) }(i)
 	}
+	for i := 0; i < c.Pick(4, 8); i++ {
+		storms.Add(1)
+		go func(i int) { defer storms.Done(); c06TickerLeak(c, i) }(i)
+	}
 	c06Writer(c)
 	c06FanOut(c)
 	storms.Wait()
@@ -480,6 +484,19 @@ func c06Writer(c *fw.Ctx) {
 				pub.Publish("c06/t", []byte(fmt.Sprintf("w%d-%d", r, total)), 1, false, kit.DefaultWait)
 			}
 			time.Sleep(150 * time.Millisecond)
+			if subQos == 2 {
+				// some deliveries have got their PUBREC (the broker now waits for PUBCOMP) when the subscriber goes
+				scan()
+				k := 0
+				for id := range outstanding {
+					if k%2 == 0 {
+						sub.Send(kit.EncPubRec(id))
+					}
+					k++
+				}
+				sub.Ping(kit.DefaultWait)
+				c.Observe("writer_sessions_ended_between_pubrec_and_pubcomp", 1)
+			}
 			sub.Close()
 			if !sessionGone(n, "slow", 10*time.Second) {
 				c.Violation("writer:session-not-removed", fmt.Sprintf("writer scenario %d: the closed subscriber is still registered after 10 s", r), nil)
@@ -654,5 +671,65 @@ func c06FanOut(c *fw.Ctx) {
 			c.Case(fmt.Sprintf("fanout|%d|%d", r, nSubs), true)
 			c.Observe("fanout_scenarios", 1)
 		}()
+	}
+}
+
+// c06TickerLeak: deliveries started at different sub-second phases stay unacknowledged for 4.6 s of
+// real time, so that the broker's own one-second sweeps pass their deadlines (no forced sweeps); then
+// the subscriber goes away. After forced far-future sweeps the whole identifier range is free.
+func c06TickerLeak(c *fw.Ctx, idx int) {
+	fw.LogCase("C06 ticker leak %d", idx)
+	// the nodes are started a quarter of a second apart: their one-second tickers then sweep at
+	// different phases of the second, and so on both sides of the sub-second part of the deadlines
+	time.Sleep(time.Duration(idx%4) * 250 * time.Millisecond)
+	cl := kit.NewCluster(kit.WorkDir("c06t"))
+	defer cl.Close()
+	n, err := cl.AddNode(kit.NodeOpts{ID: 1, PoolMin: 1, PoolMax: 12})
+	if err != nil {
+		c.Inconclusive("cannot start node: " + err.Error())
+		return
+	}
+	subQos := 1 + idx%2
+	sub, err := n.MustConnect(kit.ConnectOpts{ClientID: "silent", KeepAlive: 600, Clean: true})
+	if err != nil {
+		c.Inconclusive("connect: " + err.Error())
+		return
+	}
+	defer sub.Close()
+	sub.SetAutoAck(false)
+	if err := sub.Sub1("c06/k", subQos); err != nil {
+		c.Inconclusive("subscribe: " + err.Error())
+		return
+	}
+	pub, err := n.MustConnect(kit.ConnectOpts{ClientID: "pub", KeepAlive: 600, Clean: true})
+	if err != nil {
+		c.Inconclusive("connect: " + err.Error())
+		return
+	}
+	defer pub.Close()
+	for i := 0; i < 9; i++ {
+		if acked, _ := pub.Publish("c06/k", []byte(fmt.Sprintf("k%d-%d", idx, i)), 1, false, kit.DefaultWait); !acked {
+			c.Inconclusive("publish not acknowledged")
+			return
+		}
+		time.Sleep(130 * time.Millisecond)
+	}
+	time.Sleep(4600 * time.Millisecond)
+	sub.Close()
+	if !sessionGone(n, "silent", 10*time.Second) {
+		c.Violation("writer:session-not-removed", fmt.Sprintf("ticker scenario %d: the closed subscriber is still registered after 10 s", idx), nil)
+		return
+	}
+	far := time.Now()
+	for i := 0; i < 3; i++ {
+		far = far.Add(time.Hour)
+		n.Ack.Expire(far)
+	}
+	free := wasp.VerifPoolFree(wasp.VerifWriterPool(n.Writer))
+	c.Observe("writer_session_end_leak_checks", 1)
+	c.Case(fmt.Sprintf("ticker-leak|%d", idx), true)
+	if fs := c06FreeSet(free, 1, 12); fs == nil || len(fs) != 12 {
+		c.Violation("writer:identifiers-leaked-after-session-end", fmt.Sprintf("ticker scenario %d (subscription QoS %d): nine deliveries stayed unacknowledged for 4.6 s under the broker's own one-second sweeps, then the only subscriber went away and three far-future sweeps ran, yet the pool's free intervals are %v instead of the whole range [1,12]", idx, subQos, free),
+			map[string]interface{}{"scenario": idx, "subscription_qos": subQos, "free_intervals": fmt.Sprint(free)})
 	}
 }
